@@ -444,6 +444,8 @@ fn fraction() -> BoxedStrategy<f64> {
     prop_oneof![
         4 => Just(0.0),
         3 => select(vec![0.125, 0.25, 0.5, 0.75, 1.0, f64::from_bits(1), -0.0, 1e-9, next_down(1.0)]),
+        // decimal limits (not representable exactly; a count ratio such as 7/10 lands exactly on them)
+        2 => select(vec![0.1, 0.2, 0.3, 0.35, 0.4, 0.6, 0.7, 0.8, 0.9, 0.95, 0.12, 0.24, 0.48, 0.05]),
         3 => (0.0f64..=1.0).boxed(),
     ]
     .boxed()
